@@ -1,6 +1,7 @@
 import Mochi.Model.Broker
 import Mochi.Lemmas.BrokerConnect
 import Mochi.Lemmas.BrokerDelivery
+import Mochi.Lemmas.BrokerSession
 /-!
 # C13 — Connections start with one CONNACK and only authenticated clients are admitted
 
@@ -193,3 +194,90 @@ end Mochi.Broker
 
 #print axioms Mochi.Broker.C13_connack_first_seq
 #print axioms Mochi.Broker.c13State_reach
+
+/-! ## Admitted means registered (`Mochi/Lemmas/BrokerSession.lean`) -/
+namespace Mochi.Broker
+open Mochi.Topics
+
+/-- **C13, admitted means registered.**  `s` reachable by a sequential history, `conn` a fresh connection number, `k` a
+    CONNECT, `dec` the decision of `attachClient`; the client object the op creates has index `s.objs.length`.
+
+    * admitted (`dec = none`): at the end of the op the Clients map is the old one with the NEW object under `k.id`
+      (so `k.id ↦ s.objs.length`, every other id as before); the connection table maps `conn` to the new object; the
+      new object is open, its connection is `conn`, its client id `k.id`;
+    * refused (`dec = some code`): the Clients map is unchanged and no client id is mapped to the new object (nothing
+      is registered for `conn`); the new object is closed (and stopped). -/
+theorem C13_admitted_registered_seq (caps : Caps) (s : Server) (hr : ReachSeq caps s) (conn : Nat) (k : Connect)
+    (hf : conn ∉ s.connOf.map (·.1)) :
+    let dec := refuseCode (connState s conn k) k (parseConnect s conn k)
+    let r := step s (.connect conn k)
+    (dec = none →
+      r.1.clients = assocSet s.clients k.id s.objs.length ∧
+      assocGet r.1.clients k.id = some s.objs.length ∧
+      (∀ id, id ≠ k.id → assocGet r.1.clients id = assocGet s.clients id) ∧
+      assocGet r.1.connOf conn = some s.objs.length ∧
+      (getObj r.1 s.objs.length).isOpen = true ∧ (getObj r.1 s.objs.length).conn = conn ∧
+      (getObj r.1 s.objs.length).id = k.id) ∧
+    (∀ code, dec = some code →
+      r.1.clients = s.clients ∧ (∀ id, assocGet r.1.clients id ≠ some s.objs.length) ∧
+      assocGet r.1.connOf conn = some s.objs.length ∧
+      (getObj r.1 s.objs.length).isOpen = false ∧ (getObj r.1 s.objs.length).stopped = true) := by
+  intro dec r
+  obtain ⟨hs, hw, _, _⟩ := hr.inv
+  have hw' : WF r.1 := WF_step s (.connect conn k) hw hf
+  constructor
+  · intro hd
+    obtain ⟨_, c, n, o, cn, _⟩ := sp14_step_connect_admitted s hs hw conn k hf hd
+    have hreg : assocGet r.1.clients k.id = some s.objs.length := by
+      show assocGet (step s (.connect conn k)).1.clients k.id = _
+      rw [c, assocGet_assocSet]; simp
+    refine ⟨c, hreg, ?_, n, o, cn, (hw'.clients_valid k.id _ (assocGet_mem _ _ _ hreg)).2⟩
+    intro id hid
+    show assocGet (step s (.connect conn k)).1.clients id = _
+    rw [c, assocGet_assocSet, if_neg hid]
+  · intro code hd
+    have e := sp14_connect_refused_state s conn k code hd hf
+    have hlt : s.objs.length < (connState s conn k).objs.length := by
+      show s.objs.length < (s.objs ++ [_]).length
+      simp
+    have hobj : getObj r.1 s.objs.length = { parseConnect s conn k with isOpen := false, stopped := true } := by
+      show getObj (step s (.connect conn k)).1 s.objs.length = _
+      rw [e, getObj_setObj_eq _ _ _ hlt]
+    have hcl : r.1.clients = s.clients := by
+      show (step s (.connect conn k)).1.clients = _
+      rw [e]; rfl
+    refine ⟨hcl, ?_, ?_, by rw [hobj], by rw [hobj]⟩
+    · intro id hid
+      rw [hcl] at hid
+      exact Nat.lt_irrefl _ (hw.clients_valid id _ (assocGet_mem _ _ _ hid)).1
+    · show assocGet (step s (.connect conn k)).1.connOf conn = _
+      rw [e]
+      show assocGet (s.connOf ++ [(conn, s.objs.length)]) conn = _
+      exact assocGet_append_fresh _ _ _ hf
+
+end Mochi.Broker
+
+/-! ### non-vacuity (`c13State`: `c1` is connected on connection 2 as object 2; the hook denies `b`) -/
+namespace Mochi.Broker
+open Mochi.Topics
+
+/-- the take-over of `c1` on connection 3 is admitted: object 3 is registered under `c1`, open, on connection 3 -/
+example : assocGet (step c13State (.connect 3 { ver := 5, id := [99, 49] })).1.clients [99, 49] = some 3 ∧
+    (getObj (step c13State (.connect 3 { ver := 5, id := [99, 49] })).1 3).isOpen = true ∧
+    (getObj (step c13State (.connect 3 { ver := 5, id := [99, 49] })).1 3).conn = 3 := by
+  have h := (C13_admitted_registered_seq {} c13State c13State_reach 3 { ver := 5, id := [99, 49] } (by decide)).1
+    (by decide)
+  exact ⟨h.2.1, h.2.2.2.2.1, h.2.2.2.2.2.1⟩
+
+/-- the refused CONNECT of `b`: nothing is registered for object 3, which is closed -/
+example : (∀ id, assocGet (step c13State (.connect 3 { ver := 5, id := [98] })).1.clients id ≠ some 3) ∧
+    (getObj (step c13State (.connect 3 { ver := 5, id := [98] })).1 3).isOpen = false := by
+  have h := (C13_admitted_registered_seq {} c13State c13State_reach 3 { ver := 5, id := [98] } (by decide)).2 0x86
+    (by decide)
+  exact ⟨h.2.1, h.2.2.2.1⟩
+
+example : c13State.objs.length = 3 ∧ assocGet c13State.clients [99, 49] = some 2 := by decide
+
+end Mochi.Broker
+
+#print axioms Mochi.Broker.C13_admitted_registered_seq
